@@ -82,7 +82,7 @@ chk('C20',
 chk('C05',
     'What a solver can reach of C05: the code pfst adds AROUND the C parser. K1: _astloc_from_src / _offset_linenos / _syntax_error_in_loc == direct definitions for symbolic sources and all integers. '
     'K2: _has_trailing_comma/_semicolon == an independent scanner with multi-byte text before the position. K3: _verify_no_close_delimiters raises exactly when the delimiter depth outside the first element goes negative '
-    '(the guard that keeps "a),(b" from being accepted because of the wrapper). P1: 31 fragments x their extended parse modes == the sub-tree of the embedding construct parsed by CPython with positions relative to the fragment, 22 wrapper-escape / invalid texts rejected. P2: 93 (fragment, mode) rows over 33 modes incl. every special slice x up to 6 layouts (trailing comment, split lines, non-ASCII names, wide spacing), same oracle.',
+    '(the guard that keeps "a),(b" from being accepted because of the wrapper). P1: 31 fragments x their extended parse modes == the sub-tree of the embedding construct parsed by CPython with positions relative to the fragment, 22 wrapper-escape / invalid texts rejected. P2: ~125 (fragment, mode) rows over 35 modes incl. every special slice x up to 6 layouts (trailing comment, split lines, non-ASCII names, wide spacing), same oracle. P3: LF / CRLF / bare-CR sources (known finding: bare CR). 34 wrapper-escape / invalid texts must be rejected (one defect fixed: e99988c).',
     'NOT claimed: the main clause over ARBITRARY source text (it has to pass through ast.parse, C code; no symbolic dimension survives) - stated in DESIGN.md section 5 and level_note. Bounds: sources <= 5 symbolic characters, listed fragment tables.',
     'symbolic execution of the position fix-up and wrapper-escape guards in parsex over symbolic characters/integers; table of fragments judged by CPython for the mode wrappers',
     'DESIGN.md section 4 C05')
@@ -97,7 +97,7 @@ chk('C08',
     'K1: repr_str_multiline over strings of <= 4 symbolic characters from the alphabet that drives its quoting/escaping decisions, decoded by an independent triple-quote decoder == input. '
     'T1: put_line_comment(text) / get_line_comment() read back for EVERY code point >= U+0080 at marked positions of the text (solver found the documented trailing-whitespace strip via U+3000). '
     'P1: cut-and-put-back and replace-by-own copy / AST / source with symbolic indices, repeated twice: CPython-parsed structure equals the original. P2: 25 nasty docstring texts x every def/class/module: read back + CPython sees the same docstring. P3: own_src() of every node parses to that node, its three docstr variants asked in all 6 orders equal fresh trees.',
-    'Bounds: listed carriers/texts/alphabet. Known finding: cut-and-put-back impossible after a norm collapse.',
+    'Bounds: listed carriers/texts/alphabet. Known findings: cut-and-put-back impossible after a norm collapse; a def replaced by its own pure AST gets its docstring indented twice. P5: every ASCII character in a line comment (one defect fixed: CR / NUL accepted).',
     'symbolic execution of the quoting kernel and comment accessor over symbolic characters; round trips with symbolic indices judged by CPython',
     'DESIGN.md section 4 C08')
 chk('C09',
@@ -127,9 +127,9 @@ chk('C15',
     'symbolic execution of walk() under symbolic mutation schedules (bounded model checking over schedules)',
     'DESIGN.md section 4 C15')
 chk('C16',
-    'P1: 20 program templates (defaults, nested functions, global/nonlocal, class bodies, lambda, generator expressions incl. call / nested first iterables and walrus, imports, augmented assignment, except-as, match captures, decorators/annotations, type parameters, with/for) '
+    'P1: 30 program templates (defaults, nested functions, global/nonlocal, class bodies, lambda, generator expressions incl. call / nested first iterables and walrus, imports, augmented assignment, except-as, match captures, decorators/annotations, type parameters, with/for) '
     'with every identifier slot symbolic over {a,b,c}: all aliasing patterns. Oracle symtable.symtable: load/store/del/global/nonlocal/local/free categories of scope_symbols(full=True) for every scope == symtable flags under a fixed mapping; scope walk yields no load of another scope. '
-    'Names are realised before reaching CPython: the solver buys the aliasing partition only (stated). Two defects fixed (d2df3c8, 512fb98), one known finding (PEP 695 annotation scope).',
+    'Names are realised before reaching CPython: the solver buys the aliasing partition only (stated). Three defects fixed (d2df3c8, 512fb98, 4bb0db3), one known finding (PEP 695 annotation scope).',
     'Bounds: listed templates; list/set/dict comprehensions are inlined by CPython 3.12 (no child table): for those only "pfst reports => CPython has" is judged.',
     'finite aliasing-pattern exploration through the symbolic driver; oracle = CPython symtable',
     'DESIGN.md section 4 C16')
